@@ -678,6 +678,14 @@ impl<'a> Fx<'a> {
                 }
                 let n = m.method.to_string();
                 let rt = self.tyx(&m.receiver)?;
+                // a pure method of a translated struct: its declared result
+                if let Some(si) = self.struct_of(&rt) {
+                    if let Some(mi) = si.methods.get(&n) {
+                        if !mi.effectful {
+                            return Some(mi.ret.clone());
+                        }
+                    }
+                }
                 match (n.as_str(), m.args.len()) {
                     ("clone", 0) | ("as_ref", 0) | ("as_mut", 0) | ("take", 0) | ("borrow", 0) | ("borrow_mut", 0) | ("rc_deref", 0)
                     | ("rc_deref_mut", 0) | ("iter", 0) | ("iter_mut", 0) | ("into_iter", 0) => Some(rt),
@@ -851,6 +859,17 @@ impl<'a> Fx<'a> {
                     ("Ok", 1) => Ok(format!("(Except.ok {})", parts[0])),
                     ("Err", 1) => Ok(format!("(Except.error {})", parts[0])),
                     _ => bail(format!("pattern `{}`", show(p))),
+                }
+            }
+            Pat::Struct(ps) if ps.fields.is_empty() && ps.rest.is_some() && self.enum_of_path(&ps.path).is_some() => {
+                // `Enum::Variant { .. }`: whatever the variant carries
+                let en = self.enum_of_path(&ps.path).unwrap();
+                let c = last_seg(&ps.path);
+                let n = self.ctx.enums[&en].ctors.iter().find(|(x, _)| x == &c).map(|x| x.1.len()).unwrap_or(0);
+                if n == 0 {
+                    Ok(format!("{}.{}", en, c))
+                } else {
+                    Ok(format!("({}.{}{})", en, c, " _".repeat(n)))
                 }
             }
             Pat::Path(pp) if self.enum_of_path(&pp.path).is_some() => {
@@ -1184,7 +1203,7 @@ impl<'a> Fx<'a> {
                     self.ind += 2;
                     let n0 = self.lines.len();
                     self.expr_stmt(&arm.body)?;
-                    if self.lines.len() == n0 {
+                    if self.lines.len() == n0 || self.lines.last().map(|l| l.trim_start().starts_with("let ")).unwrap_or(false) {
                         self.emit("pure ()");
                     }
                     self.ind -= 2;
@@ -1360,6 +1379,9 @@ impl<'a> Fx<'a> {
                 Ok(())
             }
             Expr::Paren(p) => self.expr_stmt(&p.expr),
+            // the value a `actual_subscribe` hands back (`RefCountSubscription { subject, subscription }`): plain names,
+            // nothing happens
+            Expr::Struct(st) if st.rest.is_none() && st.fields.iter().all(|f| matches!(&f.expr, Expr::Path(_)) || matches!(&f.expr, Expr::MethodCall(m) if m.method == "clone" && matches!(&*m.receiver, Expr::Path(_)))) => Ok(()),
             Expr::Macro(m) => self.macro_stmt(&m.mac),
             _ => {
                 let _ = self.expr(e)?;
@@ -1787,8 +1809,8 @@ impl<'a> Fx<'a> {
                 }
                 _ => {}
             }
-            // `panic::resume_unwind(e)`: the caught panic of the task is re-raised
-            if last_seg(&p.path) == "resume_unwind" {
+            // `panic::resume_unwind(e)`: the caught panic of the task is re-raised; `unreachable!()` / `panic!()` expanded
+            if last_seg(&p.path) == "resume_unwind" || (last_seg(&p.path) == "panic" && p.path.segments.iter().any(|s| s.ident == "panicking")) {
                 self.emit("Rs.panic");
                 return Ok("()".into());
             }
@@ -2103,6 +2125,16 @@ impl<'a> Fx<'a> {
                     return Ok("()".into());
                 }
                 ("clone", 0) => return Ok(r),
+                // a subject token of share / publish: a new subscriber, "has it any subscriber left?", torn down
+                ("actual_subscribe", 1) => {
+                    self.out(format!("Rs.emitSubj {}.id", r))?;
+                    return Ok("(Rs.Sub.mk newPub.id)".into());
+                }
+                ("is_empty", 0) => return Ok(format!("(closedOf {}.id)", r)),
+                ("unsubscribe", 0) => {
+                    self.out(format!("Rs.emitGrpUnsub {}.id", r))?;
+                    return Ok("()".into());
+                }
                 _ => return bail(format!("method `.{}` of a group subject", name)),
             }
         }
@@ -2757,7 +2789,7 @@ fn is_phantom(t: &Type) -> bool {
 }
 
 /// `enum ZipItem<A, B> { ItemA(A), ItemB(B) }` → a Lean inductive (type parameters read as `Val`)
-pub fn translate_enum(items: &[Item], name: &str, ctx: &mut Ctx) -> Res<String> {
+pub fn translate_enum(items: &[Item], name: &str, ctx: &mut Ctx, hints: &HashMap<String, Ty>) -> Res<String> {
     let en = items
         .iter()
         .find_map(|i| match i {
@@ -2765,7 +2797,7 @@ pub fn translate_enum(items: &[Item], name: &str, ctx: &mut Ctx) -> Res<String> 
             _ => None,
         })
         .ok_or(format!("enum {} not found", name))?;
-    let g = generics_for(&en.generics, &["E".to_string(), "Err".to_string()], ctx, &HashMap::new())?;
+    let g = generics_for(&en.generics, &["E".to_string(), "Err".to_string()], ctx, hints)?;
     let mut ctors = vec![];
     let mut s = format!("inductive {} where\n", name);
     for v in &en.variants {
@@ -3371,11 +3403,19 @@ pub fn translate_observer(items: &[Item], name: &str, ctx: &mut Ctx, hints: &Has
         if subscribe {
             has_ret = false; // the subscription handed back is the new subscriber itself (`newPub`)
         }
+        let consumes_self = matches!(recv, Some(FnArg::Receiver(r)) if matches!(&r.kind, syn::ReceiverKind::Value));
+        if has_ret && consumes_self && fname != "is_finished" && fname != "is_closed" {
+            // `fn connect(self) -> Unsub`: the state is used up; what it hands back is a subscription the caller keeps
+            // (callers inside translated code must not look at it)
+            has_ret = false;
+        }
         if has_ret && !by_ref_only {
             return bail(format!("{}::{}: a method that both mutates and returns a value", name, fname));
         }
         let body_txt = show_full(&u.f.block);
-        let needs_closed = body_txt.contains("is_closed") || (fname == "is_closed" && u.im.trait_.is_some());
+        let needs_closed = body_txt.contains("is_closed")
+            || (fname == "is_closed" && u.im.trait_.is_some())
+            || (body_txt.contains("subject . is_empty ()") && info.fields.iter().any(|(n, t)| n == "subject" && *t == Ty::Grp));
         let needs_down = (has_ret && (body_txt.contains("is_finished") || fname == "is_finished"))
             || body_txt.contains("unbounded_send")
             || (has_ret && body_txt.contains("sender . is_closed"));
@@ -4332,10 +4372,13 @@ fn main() {
                                 }
                                 None
                             }
-                            let path: Vec<&str> = ent.expanded_mod.split("::").collect();
-                            match find(&file.items, &path) {
-                                Some(its) => items.extend(its.iter().cloned()),
-                                None => parse_err = Some(format!("module {} not found in the expanded source", ent.expanded_mod)),
+                            // (several modules: `a::b+c::d`)
+                            for one in ent.expanded_mod.split('+') {
+                                let path: Vec<&str> = one.split("::").collect();
+                                match find(&file.items, &path) {
+                                    Some(its) => items.extend(its.iter().cloned()),
+                                    None => parse_err = Some(format!("module {} not found in the expanded source", one)),
+                                }
                             }
                         }
                         Err(e) => parse_err = Some(format!("cannot parse the expanded source: {}", e)),
@@ -4412,9 +4455,11 @@ fn main() {
                     StructInfo { name: "Observer".into(), fields: vec![], methods: HashMap::new(), root_ty: Some(Ty::Obs), prefix: String::new(), cells: vec![] },
                 );
             }
+            let mut later_enums: Vec<&str> = vec![];
             for en in ent.enums {
-                match translate_enum(&items, en, &mut ctx) {
+                match translate_enum(&items, en, &mut ctx, &ent.hints.iter().filter(|h| h.0 == *en).map(|h| (h.1.to_string(), parse_spec(h.2))).collect()) {
                     Ok(s) => lean += &s,
+                    Err(e) if ent.observers.iter().any(|o| e.contains(&format!("`{} <", o)) || e.contains(&format!("`{}`", o))) => later_enums.push(*en),
                     Err(e) => {
                         failed += 1;
                         eprintln!("{}: enum {}: {}", ent.file, en, e);
@@ -4440,6 +4485,14 @@ fn main() {
             for obs in ent.observers {
                 let hints: HashMap<String, Ty> =
                     ent.hints.iter().filter(|h| h.0 == *obs).map(|h| (h.1.to_string(), parse_spec(h.2))).collect();
+                // an enum that mentions an observer struct of this file is taken up as soon as that struct is there
+                later_enums.retain(|en| match translate_enum(&items, en, &mut ctx, &ent.hints.iter().filter(|h| h.0 == *en).map(|h| (h.1.to_string(), parse_spec(h.2))).collect()) {
+                    Ok(s) => {
+                        lean += &s;
+                        false
+                    }
+                    Err(_) => true,
+                });
                 match translate_observer(&items, obs, &mut ctx, &hints) {
                     Ok(s) => lean += &s,
                     Err(e) => {
@@ -4452,6 +4505,13 @@ fn main() {
                         lean += &partial;
                         writeln!(lean, "-- TRANSLATION FAILED for {}: {}\n", obs, msg.replace('\n', " ")).unwrap();
                     }
+                }
+            }
+            for en in later_enums {
+                if let Err(e) = translate_enum(&items, en, &mut ctx, &ent.hints.iter().filter(|h| h.0 == en).map(|h| (h.1.to_string(), parse_spec(h.2))).collect()) {
+                    failed += 1;
+                    eprintln!("{}: enum {}: {}", ent.file, en, e);
+                    writeln!(lean, "-- TRANSLATION FAILED for enum {}: {}\n", en, e).unwrap();
                 }
             }
             for pst in later {
